@@ -51,9 +51,6 @@ DOCUMENTED = {
 
 # ---- finding-adjusted side: the key sets the defective packages look up at the pinned commit (known_findings.json)
 ADJUSTED = {
-    "unwrap_abuse": {"unwrap-abuse"},
-    "clone_abuse": {"clone-abuse"},
-    "blocking_async": {"blocking-async"},
     "stateless_class": set(),
     "lazy_ignores": set(),
     "collection_pipeline": {"collection_pipeline", "collection-pipeline"},
@@ -97,6 +94,8 @@ def _const_strs(e, consts):
         return out
     if isinstance(e, ast.Name):
         return list(consts.get(e.id, []))
+    if isinstance(e, ast.IfExp):
+        return _const_strs(e.body, consts) + _const_strs(e.orelse, consts)
     return []
 
 
